@@ -47,6 +47,21 @@ func (w *Writer) Emit(ev Ev) {
 	w.mu.Unlock()
 }
 
+// EmitBlock writes several events contiguously.
+func (w *Writer) EmitBlock(evs []Ev) {
+	w.mu.Lock()
+	for _, ev := range evs {
+		b, err := json.Marshal(ev)
+		if err != nil {
+			panic(err)
+		}
+		w.w.Write(b)
+		w.w.WriteByte('\n')
+		w.N++
+	}
+	w.mu.Unlock()
+}
+
 func (w *Writer) Flush() { w.mu.Lock(); w.w.Flush(); w.mu.Unlock() }
 func (w *Writer) Close() error {
 	w.Flush()
